@@ -17,7 +17,7 @@
 //     F c k          find + contains + count             I c [how]    iterate (how 1: through a const reference)
 //     Z c            size only                           A c pmax     audit: iterate + find(1..pmax)
 //     C c            clear                               R c n / H c n  reserve / rehash
-//     Y d s [how]    d = s (how 1: destroy d, copy-construct from s)
+//     Y d s [how]    d = s (how 1: destroy d, copy-construct from s); Y c c / V c c / S c c: self assignment / self swap
 //     V d s          d = std::move(s)                    W d s        destroy d, move-construct from s
 //     S a b [how]    a.swap(b) (how 1: std::swap(a, b))
 // Each script runs in a forked child (a crash or hang is recorded as the trace's end status).
@@ -403,10 +403,13 @@ struct Runner {
       } else if (o == "Y" || o == "V" || o == "W" || o == "S") {
         di = static_cast<int>(op.a[1]) - 1;
         how = op.a[2];
-        if (di < 0 || di > 1 || di == ci) {
+        // di == ci: self copy assignment / self move assignment / self swap (through two references, the way
+        // `v[i] = v[j]` with i == j reaches the operator)
+        if (di < 0 || di > 1 || (di == ci && o == "W")) {
           fprintf(stderr, "bad script: %s needs two different containers\n", o.c_str());
           _exit(3);
         }
+        if (di == ci) how = 0;
         if (o == "Y") {
           if constexpr (T::copyable) {
             if (how == 1) {
